@@ -278,6 +278,12 @@ def _truth_under(e: Optional[ast.AST], guards) -> Optional[bool]:
     for g, pol, _ in guards:
         if ast.unparse(g) == txt:
             return pol
+    if isinstance(e, ast.Compare) and len(e.ops) == 1 and type(e.ops[0]) in _COMPLEMENT:
+        # `x is None` is known to be false where `x is not None` is known to be true (and the other way round)
+        txt = ast.unparse(ast.Compare(left=e.left, ops=[_COMPLEMENT[type(e.ops[0])]()], comparators=e.comparators))
+        for g, pol, _ in guards:
+            if ast.unparse(g) == txt:
+                return not pol
     if isinstance(e, ast.UnaryOp) and isinstance(e.op, ast.Not):
         t = _truth_under(e.operand, guards)
         return None if t is None else not t
@@ -292,6 +298,69 @@ def _truth_under(e: Optional[ast.AST], guards) -> Optional[bool]:
     if isinstance(e, ast.Call) and call_name(e) == "bool" and len(e.args) == 1:
         return _truth_under(e.args[0], guards)
     return None
+
+
+_COMPLEMENT = {ast.Is: ast.IsNot, ast.IsNot: ast.Is, ast.Eq: ast.NotEq, ast.NotEq: ast.Eq, ast.In: ast.NotIn, ast.NotIn: ast.In}
+
+
+def _same_bindings(cfg: CFG, a: Node, b: Node, e: ast.AST) -> bool:
+    """Every name in e is bound by one and the same definition at a and at b (one definition only: with two, the sets may agree while the value
+    changed in between — a conditional re-binding inside a loop reaches both places around the back edge)."""
+    return all(len(cfg.defs_reaching(a, nm)) == 1 and [n.id for n in cfg.defs_reaching(a, nm)] == [n.id for n in cfg.defs_reaching(b, nm)]
+               for nm in {x.id for x in ast.walk(e) if isinstance(x, ast.Name)})
+
+
+def _unfolded(cfg: CFG, at: Optional[Node], e: Optional[ast.AST], depth: int = 0) -> Optional[ast.AST]:
+    """e with every flag — a local with a single definition reaching `at` whose value is a test on the bindings of plain names — replaced by that test, so that
+    `f = x is not None` ... `k=f` / `if f:` reads as `k=x is not None` / `if x is not None:`.  Only tests whose outcome cannot change between the definition of
+    the flag and `at` are unfolded: identity comparisons of plain names and constants (no calls, attributes, subscripts: the truth of an object may change while
+    its binding does not), combined with not / and / or / conditional expressions, over names that are bound by the same definitions at both places."""
+    if e is None or at is None or depth > 4:
+        return e
+    if isinstance(e, ast.Name):
+        ds = cfg.defs_reaching(at, e.id)
+        v = cfg.value_of_def(ds[0], e.id) if len(ds) == 1 else None
+        if v is None or isinstance(v, ast.Name) or not _binding_test(v):
+            return e
+        w = _unfolded(cfg, ds[0], v, depth + 1)
+        return w if _binding_test(w, flags=False) and _same_bindings(cfg, ds[0], at, w) else e
+    if isinstance(e, ast.UnaryOp) and isinstance(e.op, ast.Not):
+        return ast.UnaryOp(op=ast.Not(), operand=_unfolded(cfg, at, e.operand, depth))
+    if isinstance(e, ast.BoolOp):
+        return ast.BoolOp(op=e.op, values=[_unfolded(cfg, at, v, depth) for v in e.values])
+    if isinstance(e, ast.IfExp):
+        return ast.IfExp(test=_unfolded(cfg, at, e.test, depth), body=_unfolded(cfg, at, e.body, depth), orelse=_unfolded(cfg, at, e.orelse, depth))
+    return e
+
+
+def _binding_test(e: ast.AST, flags: bool = True) -> bool:
+    """e is built from constants and identity comparisons of plain names / constants with not, and / or and conditional expressions
+    (with `flags`: plain names may stand for further such tests)."""
+    if isinstance(e, ast.Constant):
+        return True
+    if isinstance(e, ast.Name):
+        return flags
+    if isinstance(e, ast.Compare):
+        return all(isinstance(o, (ast.Is, ast.IsNot)) for o in e.ops) and all(isinstance(x, (ast.Name, ast.Constant)) for x in [e.left] + e.comparators)
+    if isinstance(e, ast.UnaryOp) and isinstance(e.op, ast.Not):
+        return _binding_test(e.operand, flags)
+    if isinstance(e, ast.BoolOp):
+        return all(_binding_test(v, flags) for v in e.values)
+    if isinstance(e, ast.IfExp):
+        return all(_binding_test(v, flags) for v in (e.test, e.body, e.orelse))
+    return False
+
+
+def _unfolded_guards(cfg: CFG, at: Node, guards):
+    """The guards, each also with its flags unfolded (a test of a statement where it is evaluated, a test of a conditional expression at its statement)."""
+    out = list(guards)
+    for g, pol, t in guards:
+        w = _unfolded(cfg, t if t is not None else at, g)
+        if w is not g and ast.unparse(w) != ast.unparse(g) and _same_bindings(cfg, t if t is not None else at, at, w):
+            while isinstance(w, ast.UnaryOp) and isinstance(w.op, ast.Not):
+                w, pol = w.operand, not pol
+            out.append((w, pol, t))
+    return out
 
 
 def _made_elsewhere(cfg: CFG, d: Node, dguards, at: Node, guards) -> bool:
@@ -336,9 +405,10 @@ def _sampled_keys(ck: Check, repo: Repo) -> None:
             if at is None:
                 continue
             nreads += 1
-            guards = _expr_guards(cfg, sub)
+            guards = _unfolded_guards(cfg, at, _expr_guards(cfg, sub))
             bad = None
             for d, v, dguards in _alternatives(cfg, at, sub.value.id):
+                dguards = _unfolded_guards(cfg, d, dguards)
                 if _made_elsewhere(cfg, d, dguards, at, guards):
                     continue
                 if not (isinstance(v, ast.Call) and last_attr(v) == "sample"):
@@ -347,7 +417,11 @@ def _sampled_keys(ck: Check, repo: Repo) -> None:
                 kw = get_kw(v, "return_idx", None)
                 if kw is None and len(v.args) >= 2 and any(ast.unparse(g) == "per" and pol for g, pol, _ in dguards):
                     continue  # sample(batch_size, beta): the prioritised buffer, on the `per` path
-                if _truth_under(kw, guards) is not True:
+                # a flag passed as the argument stands for the test it was computed from (which must still say the same at the read)
+                asked = _unfolded(cfg, d, kw)
+                if asked is not kw and not _same_bindings(cfg, d, at, asked):
+                    asked = kw
+                if _truth_under(asked, guards) is not True:
                     bad = f"`{short(v, 80)}` does not request the indices on this path"
             ck.ob("C20.1", fn, sub, bad is None, f"{fname}: a batch whose sampled indices are read was sampled with the indices requested", detail=bad or "",
                   construct=f"{fname}: read of batch['idxs'] / the sample call that produced the batch")
@@ -571,8 +645,8 @@ def _accounting(ck: Check, repo: Repo) -> None:
         W = whiles[0]
         cond = ast.unparse(W.ast)
         doc = ast.get_docstring(fn.node) or ""
-        summed = has(W.ast, 'np.sum([$agent.steps[-1] for $agent in pop]) < max_steps')
-        per_agent = has(W.ast, 'np.less([$agent.steps[-1] for $agent in pop], max_steps).all()')
+        form = _budget_form(W.ast)
+        summed, per_agent = form == "sum", form == "each"
         says_sum = "across the entire population" in doc or "summed" in doc
         ck.ob("C20.4", fn, W.ast, (summed and says_sum) or (per_agent and not says_sum),
               f"{lname}: training continues while the documented budget is not met ({'population sum' if says_sum else 'every agent below max_steps'})",
@@ -626,6 +700,80 @@ def _accounting(ck: Check, repo: Repo) -> None:
             ok = len(al) == 1 and dotted(al[0].ast.iter) == "pop" and _name_in(al[0].ast.target, {apps[0].func.value.value.id}) \
                 and not [g for g, p, t in cfg.guards_at(n) if "accelerator" not in ast.unparse(g)]
         ck.ob("C20.4", fn, apps[0] if apps else fn.node, ok, f"{lname}: one new step-counter entry per agent per generation")
+
+
+_MIRROR = {ast.Lt: ast.Gt, ast.Gt: ast.Lt, ast.LtE: ast.GtE, ast.GtE: ast.LtE}
+
+
+def _below_budget(e: Optional[ast.AST], neg: bool = False) -> Optional[ast.AST]:
+    """x when e (negated when `neg`) says `x < max_steps`: `x < max_steps` / `max_steps > x`, or under a negation `x >= max_steps` / `max_steps <= x`."""
+    while isinstance(e, ast.UnaryOp) and isinstance(e.op, ast.Not):
+        e, neg = e.operand, not neg
+    if not (isinstance(e, ast.Compare) and len(e.ops) == 1):
+        return None
+    l, r, op = e.left, e.comparators[0], type(e.ops[0])
+    if _name_in(l, {"max_steps"}):
+        l, r, op = r, l, _MIRROR.get(op)
+    if not _name_in(r, {"max_steps"}):
+        return None
+    return l if op is (ast.GtE if neg else ast.Lt) else None
+
+
+def _every_agent(e: Optional[ast.AST]):
+    """(element, agent variable) when e is a comprehension / generator that has one element for every member of `pop` (arrays and lists made from one included)."""
+    while isinstance(e, ast.Call) and last_attr(e) in ("array", "asarray", "list", "tuple") and len(e.args) == 1 and not e.keywords:
+        e = e.args[0]
+    if isinstance(e, (ast.ListComp, ast.GeneratorExp)) and len(e.generators) == 1 and not e.generators[0].ifs and dotted(e.generators[0].iter) == "pop" \
+            and isinstance(e.generators[0].target, ast.Name):
+        return e.elt, e.generators[0].target.id
+    return None
+
+
+def _all_steps(e: Optional[ast.AST]) -> bool:
+    """e holds `a.steps[-1]` for every a in pop."""
+    ea = _every_agent(e)
+    return ea is not None and _last_steps_of(ea[0]) == ea[1]
+
+
+def _reduction(e: Optional[ast.AST]):
+    """(reducer, operand) for `f(X)` / `np.f(X)` / `X.f()`."""
+    if not isinstance(e, ast.Call) or e.keywords:
+        return None
+    if len(e.args) == 1 and (isinstance(e.func, ast.Name) or isinstance(e.func, ast.Attribute) and dotted(e.func.value) in ("np", "numpy", "builtins")):
+        return last_attr(e), e.args[0]
+    if not e.args and isinstance(e.func, ast.Attribute):
+        return e.func.attr, e.func.value
+    return None
+
+
+def _budget_form(test: ast.AST) -> Optional[str]:
+    """What the condition of the budget loop says, however it is spelled: 'sum' — the steps of all agents add up to less than max_steps;
+    'each' — every agent of the population is below max_steps (a conjunction over `pop`: all(...) of the comparisons, element-wise np.less(...).all(),
+    no agent at or above the budget, the largest counter below it).  None for anything else (some agent / the slowest agent below it, another counter ...)."""
+    e, neg = test, False
+    while isinstance(e, ast.UnaryOp) and isinstance(e.op, ast.Not):
+        e, neg = e.operand, not neg
+    x = _below_budget(e, neg)
+    if x is not None:
+        r = _reduction(x)
+        if r is not None and _all_steps(r[1]):
+            return {"sum": "sum", "max": "each", "amax": "each"}.get(r[0])
+        return None
+    r = _reduction(e)
+    if r is None or (r[0], neg) not in (("all", False), ("any", True)):
+        return None
+    X = r[1]
+    # element-wise over an array of the counters: `<array> < max_steps`, np.less(<counters>, max_steps) ...
+    if isinstance(X, ast.Call) and len(X.args) == 2 and not X.keywords and last_attr(X) in ("less", "greater", "less_equal", "greater_equal"):
+        op = {"less": ast.Lt, "greater": ast.Gt, "less_equal": ast.LtE, "greater_equal": ast.GtE}[last_attr(X)]
+        X = ast.Compare(left=X.args[0], ops=[op()], comparators=[X.args[1]])
+    if _all_steps(_below_budget(X, neg)):
+        return "each"
+    # one comparison per agent
+    ea = _every_agent(X)
+    if ea is not None and _last_steps_of(_below_budget(ea[0], neg)) == ea[1]:
+        return "each"
+    return None
 
 
 def _counter_roles(cfg: CFG, fn: Fn, loops: List[Node], body: Set[int]) -> Dict[str, Set[str]]:
@@ -871,4 +1019,28 @@ VARIANTS += [
      '    num_envs = env.num_envs if hasattr(env, "num_envs") else 1\n    is_vectorised = True if hasattr(env, "num_envs") else False\n', 'silent', None),
     ('off-policy-single-env-counted-as-two', 'agilerl/training/train_off_policy.py', '    if hasattr(env, "num_envs"):\n        num_envs = env.num_envs\n        is_vectorised = True\n    else:\n        num_envs = 1\n        is_vectorised = False\n',
      '    num_envs = env.num_envs if hasattr(env, "num_envs") else 2\n    is_vectorised = True if hasattr(env, "num_envs") else False\n', 'fire', 'C20.4'),
+]
+# a flag computed once from a test on bindings stands for that test (in the request and in the guards of the read); `x is None` false == `x is not None` true;
+# the budget condition is classified by what it says (sum over the population / every agent below the budget), not by its spelling
+VARIANTS += [
+    ('off-policy-indices-request-through-flag-ok', 'agilerl/training/train_off_policy.py', '                        else:\n                            experiences = sampler.sample(\n                                agent.batch_size,\n                                return_idx=True if n_step_memory is not None else False,\n                            )\n                            if n_step_memory is not None:\n                                n_step_experiences = n_step_sampler.sample(\n                                    experiences["idxs"]\n                                )\n                                loss, *_ = agent.learn(\n                                    experiences, n_experiences=n_step_experiences\n                                )\n                            else:\n                                loss = agent.learn(experiences)\n                                if isinstance(agent, RainbowDQN):\n                                    loss, *_ = loss\n\n                if loss is not None:', '                        else:\n                            wants_idx = n_step_memory is not None\n                            experiences = sampler.sample(agent.batch_size, return_idx=wants_idx)\n                            if wants_idx:\n                                n_step_experiences = n_step_sampler.sample(\n                                    experiences["idxs"]\n                                )\n                                loss, *_ = agent.learn(\n                                    experiences, n_experiences=n_step_experiences\n                                )\n                            else:\n                                loss = agent.learn(experiences)\n                                if isinstance(agent, RainbowDQN):\n                                    loss, *_ = loss\n\n                if loss is not None:', 'silent', None),
+    ('off-policy-indices-flag-in-request-test-in-guard-ok', 'agilerl/training/train_off_policy.py', '                        else:\n                            experiences = sampler.sample(\n                                agent.batch_size,\n                                return_idx=True if n_step_memory is not None else False,\n                            )\n                            if n_step_memory is not None:\n                                n_step_experiences = n_step_sampler.sample(\n                                    experiences["idxs"]\n                                )\n                                loss, *_ = agent.learn(\n                                    experiences, n_experiences=n_step_experiences\n                                )\n                            else:\n                                loss = agent.learn(experiences)\n                                if isinstance(agent, RainbowDQN):\n                                    loss, *_ = loss\n\n                if loss is not None:', '                        else:\n                            wants_idx = n_step_memory is not None\n                            experiences = sampler.sample(agent.batch_size, return_idx=wants_idx)\n                            if n_step_memory is not None:\n                                n_step_experiences = n_step_sampler.sample(\n                                    experiences["idxs"]\n                                )\n                                loss, *_ = agent.learn(\n                                    experiences, n_experiences=n_step_experiences\n                                )\n                            else:\n                                loss = agent.learn(experiences)\n                                if isinstance(agent, RainbowDQN):\n                                    loss, *_ = loss\n\n                if loss is not None:', 'silent', None),
+    ('off-policy-indices-test-in-request-flag-in-guard-ok', 'agilerl/training/train_off_policy.py', '                        else:\n                            experiences = sampler.sample(\n                                agent.batch_size,\n                                return_idx=True if n_step_memory is not None else False,\n                            )\n                            if n_step_memory is not None:\n                                n_step_experiences = n_step_sampler.sample(\n                                    experiences["idxs"]\n                                )\n                                loss, *_ = agent.learn(\n                                    experiences, n_experiences=n_step_experiences\n                                )\n                            else:\n                                loss = agent.learn(experiences)\n                                if isinstance(agent, RainbowDQN):\n                                    loss, *_ = loss\n\n                if loss is not None:', '                        else:\n                            wants_idx = n_step_memory is not None\n                            experiences = sampler.sample(agent.batch_size, return_idx=True if n_step_memory is not None else False)\n                            if wants_idx:\n                                n_step_experiences = n_step_sampler.sample(\n                                    experiences["idxs"]\n                                )\n                                loss, *_ = agent.learn(\n                                    experiences, n_experiences=n_step_experiences\n                                )\n                            else:\n                                loss = agent.learn(experiences)\n                                if isinstance(agent, RainbowDQN):\n                                    loss, *_ = loss\n\n                if loss is not None:', 'silent', None),
+    ('off-policy-indices-flag-from-the-opposite-test', 'agilerl/training/train_off_policy.py', '                        else:\n                            experiences = sampler.sample(\n                                agent.batch_size,\n                                return_idx=True if n_step_memory is not None else False,\n                            )\n                            if n_step_memory is not None:\n                                n_step_experiences = n_step_sampler.sample(\n                                    experiences["idxs"]\n                                )\n                                loss, *_ = agent.learn(\n                                    experiences, n_experiences=n_step_experiences\n                                )\n                            else:\n                                loss = agent.learn(experiences)\n                                if isinstance(agent, RainbowDQN):\n                                    loss, *_ = loss\n\n                if loss is not None:', '                        else:\n                            wants_idx = n_step_memory is None\n                            experiences = sampler.sample(agent.batch_size, return_idx=wants_idx)\n                            if n_step_memory is not None:\n                                n_step_experiences = n_step_sampler.sample(\n                                    experiences["idxs"]\n                                )\n                                loss, *_ = agent.learn(\n                                    experiences, n_experiences=n_step_experiences\n                                )\n                            else:\n                                loss = agent.learn(experiences)\n                                if isinstance(agent, RainbowDQN):\n                                    loss, *_ = loss\n\n                if loss is not None:', 'fire', 'C20.1'),
+    ('off-policy-indices-flag-of-another-buffer', 'agilerl/training/train_off_policy.py', '                        else:\n                            experiences = sampler.sample(\n                                agent.batch_size,\n                                return_idx=True if n_step_memory is not None else False,\n                            )\n                            if n_step_memory is not None:\n                                n_step_experiences = n_step_sampler.sample(\n                                    experiences["idxs"]\n                                )\n                                loss, *_ = agent.learn(\n                                    experiences, n_experiences=n_step_experiences\n                                )\n                            else:\n                                loss = agent.learn(experiences)\n                                if isinstance(agent, RainbowDQN):\n                                    loss, *_ = loss\n\n                if loss is not None:', '                        else:\n                            wants_idx = memory is not None\n                            experiences = sampler.sample(agent.batch_size, return_idx=wants_idx)\n                            if n_step_memory is not None:\n                                n_step_experiences = n_step_sampler.sample(\n                                    experiences["idxs"]\n                                )\n                                loss, *_ = agent.learn(\n                                    experiences, n_experiences=n_step_experiences\n                                )\n                            else:\n                                loss = agent.learn(experiences)\n                                if isinstance(agent, RainbowDQN):\n                                    loss, *_ = loss\n\n                if loss is not None:', 'fire', 'C20.1'),
+    ('off-policy-indices-flag-from-a-truth-test', 'agilerl/training/train_off_policy.py', '                        else:\n                            experiences = sampler.sample(\n                                agent.batch_size,\n                                return_idx=True if n_step_memory is not None else False,\n                            )\n                            if n_step_memory is not None:\n                                n_step_experiences = n_step_sampler.sample(\n                                    experiences["idxs"]\n                                )\n                                loss, *_ = agent.learn(\n                                    experiences, n_experiences=n_step_experiences\n                                )\n                            else:\n                                loss = agent.learn(experiences)\n                                if isinstance(agent, RainbowDQN):\n                                    loss, *_ = loss\n\n                if loss is not None:', '                        else:\n                            wants_idx = bool(pop_loss)\n                            experiences = sampler.sample(agent.batch_size, return_idx=wants_idx)\n                            if n_step_memory is not None:\n                                n_step_experiences = n_step_sampler.sample(\n                                    experiences["idxs"]\n                                )\n                                loss, *_ = agent.learn(\n                                    experiences, n_experiences=n_step_experiences\n                                )\n                            else:\n                                loss = agent.learn(experiences)\n                                if isinstance(agent, RainbowDQN):\n                                    loss, *_ = loss\n\n                if loss is not None:', 'fire', 'C20.1'),
+    ('off-policy-indices-flag-stale-after-rebinding', 'agilerl/training/train_off_policy.py', '                        else:\n                            experiences = sampler.sample(\n                                agent.batch_size,\n                                return_idx=True if n_step_memory is not None else False,\n                            )\n                            if n_step_memory is not None:\n                                n_step_experiences = n_step_sampler.sample(\n                                    experiences["idxs"]\n                                )\n                                loss, *_ = agent.learn(\n                                    experiences, n_experiences=n_step_experiences\n                                )\n                            else:\n                                loss = agent.learn(experiences)\n                                if isinstance(agent, RainbowDQN):\n                                    loss, *_ = loss\n\n                if loss is not None:', '                        else:\n                            wants_idx = n_step_memory is not None\n                            if agent.batch_size > 1:\n                                n_step_memory = n_step_sampler.memory\n                            experiences = sampler.sample(agent.batch_size, return_idx=wants_idx)\n                            if n_step_memory is not None:\n                                n_step_experiences = n_step_sampler.sample(\n                                    experiences["idxs"]\n                                )\n                                loss, *_ = agent.learn(\n                                    experiences, n_experiences=n_step_experiences\n                                )\n                            else:\n                                loss = agent.learn(experiences)\n                                if isinstance(agent, RainbowDQN):\n                                    loss, *_ = loss\n\n                if loss is not None:', 'fire', 'C20.1'),
+    ('off-policy-indices-read-on-the-else-arm-of-is-none-ok', 'agilerl/training/train_off_policy.py', '                        else:\n                            experiences = sampler.sample(\n                                agent.batch_size,\n                                return_idx=True if n_step_memory is not None else False,\n                            )\n                            if n_step_memory is not None:\n                                n_step_experiences = n_step_sampler.sample(\n                                    experiences["idxs"]\n                                )\n                                loss, *_ = agent.learn(\n                                    experiences, n_experiences=n_step_experiences\n                                )\n                            else:\n                                loss = agent.learn(experiences)\n                                if isinstance(agent, RainbowDQN):\n                                    loss, *_ = loss\n\n                if loss is not None:', '                        else:\n                            experiences = sampler.sample(agent.batch_size, return_idx=n_step_memory is not None)\n                            if n_step_memory is None:\n                                loss = agent.learn(experiences)\n                                if isinstance(agent, RainbowDQN):\n                                    loss, *_ = loss\n                            else:\n                                n_step_experiences = n_step_sampler.sample(\n                                    experiences["idxs"]\n                                )\n                                loss, *_ = agent.learn(\n                                    experiences, n_experiences=n_step_experiences\n                                )\n\n                if loss is not None:', 'silent', None),
+    ('off-policy-indices-read-on-the-is-none-arm', 'agilerl/training/train_off_policy.py', '                        else:\n                            experiences = sampler.sample(\n                                agent.batch_size,\n                                return_idx=True if n_step_memory is not None else False,\n                            )\n                            if n_step_memory is not None:\n                                n_step_experiences = n_step_sampler.sample(\n                                    experiences["idxs"]\n                                )\n                                loss, *_ = agent.learn(\n                                    experiences, n_experiences=n_step_experiences\n                                )\n                            else:\n                                loss = agent.learn(experiences)\n                                if isinstance(agent, RainbowDQN):\n                                    loss, *_ = loss\n\n                if loss is not None:', '                        else:\n                            experiences = sampler.sample(agent.batch_size, return_idx=n_step_memory is not None)\n                            if n_step_memory is None:\n                                n_step_experiences = n_step_sampler.sample(\n                                    experiences["idxs"]\n                                )\n                                loss, *_ = agent.learn(\n                                    experiences, n_experiences=n_step_experiences\n                                )\n                            else:\n                                loss = agent.learn(experiences)\n                                if isinstance(agent, RainbowDQN):\n                                    loss, *_ = loss\n\n                if loss is not None:', 'fire', 'C20.1'),
+    ('off-budget-all-of-comparisons-ok', 'agilerl/training/train_off_policy.py', '    while np.less([agent.steps[-1] for agent in pop], max_steps).all():', '    while all(agent.steps[-1] < max_steps for agent in pop):', 'silent', None),
+    ('off-budget-no-agent-at-the-budget-ok', 'agilerl/training/train_off_policy.py', '    while np.less([agent.steps[-1] for agent in pop], max_steps).all():', '    while not any([max_steps <= agent.steps[-1] for agent in pop]):', 'silent', None),
+    ('off-budget-elementwise-comparison-ok', 'agilerl/training/train_off_policy.py', '    while np.less([agent.steps[-1] for agent in pop], max_steps).all():', '    while (np.array([agent.steps[-1] for agent in pop]) < max_steps).all():', 'silent', None),
+    ('off-budget-largest-counter-ok', 'agilerl/training/train_off_policy.py', '    while np.less([agent.steps[-1] for agent in pop], max_steps).all():', '    while max(agent.steps[-1] for agent in pop) < max_steps:', 'silent', None),
+    ('off-budget-any-of-comparisons', 'agilerl/training/train_off_policy.py', '    while np.less([agent.steps[-1] for agent in pop], max_steps).all():', '    while any(agent.steps[-1] < max_steps for agent in pop):', 'fire', 'C20.4'),
+    ('off-budget-all-at-or-below', 'agilerl/training/train_off_policy.py', '    while np.less([agent.steps[-1] for agent in pop], max_steps).all():', '    while all(agent.steps[-1] <= max_steps for agent in pop):', 'fire', 'C20.4'),
+    ('off-budget-all-of-part-of-the-population', 'agilerl/training/train_off_policy.py', '    while np.less([agent.steps[-1] for agent in pop], max_steps).all():', '    while all(agent.steps[-1] < max_steps for agent in pop[:1]):', 'fire', 'C20.4'),
+    ('off-budget-not-all-at-the-budget', 'agilerl/training/train_off_policy.py', '    while np.less([agent.steps[-1] for agent in pop], max_steps).all():', '    while not all(agent.steps[-1] >= max_steps for agent in pop):', 'fire', 'C20.4'),
+    ('off-budget-sum-where-per-agent-is-documented', 'agilerl/training/train_off_policy.py', '    while np.less([agent.steps[-1] for agent in pop], max_steps).all():', '    while sum(agent.steps[-1] for agent in pop) < max_steps:', 'fire', 'C20.4'),
+    ('ma-on-budget-sum-as-builtin-ok', 'agilerl/training/train_multi_agent_on_policy.py', '    while np.sum([agent.steps[-1] for agent in pop]) < max_steps:', '    while not (sum(agent.steps[-1] for agent in pop) >= max_steps):', 'silent', None),
+    ('ma-on-budget-per-agent-where-sum-is-documented', 'agilerl/training/train_multi_agent_on_policy.py', '    while np.sum([agent.steps[-1] for agent in pop]) < max_steps:', '    while all(agent.steps[-1] < max_steps for agent in pop):', 'fire', 'C20.4'),
 ]
